@@ -32,3 +32,4 @@ func verifPar(f, g func()) {
 }
 func verifParam(name string) int
 func verifIteStr(c bool, a, b string) string
+func verifBackground(f func())
